@@ -149,6 +149,25 @@ func init() {
 		// programs with guarded recursion and calls: random stream, compared with the model
 		cfg := GenCfg{MaxDepth: 3, Subs: true, Globals: true, Captures: false, Anchors: true}
 		cases = append(cases, searchCases(r, st, sizes(tier, 500, 8000), cfg, 3, 10, "g")...)
+		// guarded recursion whose recursive call (or a call of an earlier definition) stands INSIDE a counted loop that is
+		// unrolled (minimum >= 1), after a consuming prefix: every copy of the body must call the same subroutine
+		rtexts := []string{"x", "xx", "((x)x) (x)", "(x)", "((x))", "xxx(", "(", "a1,2,3", "1,2,3"}
+		rth := []string{}
+		for _, t := range rtexts {
+			rth = append(rth, hx(t))
+		}
+		for i, p := range []string{
+			"{ 'x' at least 1 (maybe s) } = s", "{ 'x' at least 2 (maybe s) } = s", "{ 'x' between 1 and 3 (maybe s) } = s", "{ 'x' exactly 2 (maybe s) } = s",
+			"{ '(' at least 1 (s or 'x') ')' } = s", "{ '(' between 1 and 2 (s or 'x') ')' } = s", "{ '(' at least 1 (s or 'x') fewest ')' } = s",
+			"{digit} = d at least 1 (',' d)", "{digit} = d exactly 2 (',' d)", "{ 'x' at least 1 ((maybe s) 'x') } = s",
+		} {
+			st.Features["recursive-call-inside-unrolled-loop"]++
+			cases = append(cases, Case{ID: fmt.Sprintf("nr%d", i), Op: "runmany",
+				Fields: []string{hx("find all " + p), strings.Join(rth, ",")}, Meta: map[string]string{}})
+		}
+		for i, p := range []string{"set d to pattern digit\nfind all d at least 1 (',' d)", "set d to pattern digit\nfind all d exactly 2 (',' d) maybe d"} {
+			cases = append(cases, Case{ID: fmt.Sprintf("nrg%d", i), Op: "runmany", Fields: []string{hx(p), strings.Join(rth, ",")}, Meta: map[string]string{}})
+		}
 		// the outer scan on texts that are not ASCII: valid multi-byte characters, matches and failed attempts that end
 		// or start INSIDE a character, continuation bytes first, Latin-1 bytes, truncated sequences, 0xFF
 		bprogs := []string{"'b'", "'a' any", "any", "not 'x'", "in 'a' to 'z'", "not in 'a' to 'z'", "at least 1 any fewest 'q'",
